@@ -35,6 +35,7 @@ class JobResult:
         self.wall_s = 0.0
         self.extra = {}                # harness-specific counters (summed by the driver)
         self.reached = 0               # paths that reached at least one obligation (vacuity guard)
+        self.cvc5 = {}
 
     def as_dict(self):
         return {k: v for k, v in self.__dict__.items() if not k.startswith("_")}
@@ -106,6 +107,7 @@ def explore(name, body, max_paths=200000, max_seconds=600.0, repo_root="/repo",
             break
         if len(jr.violations) >= stop_after_violations:
             break
+    jr.cvc5 = _second_opinion(getattr(stats, "smt_samples", []), jr)
     jr.queries, jr.solver_s, jr.forks = stats.queries, round(stats.solver_s, 3), stats.forks
     jr.wall_s = round(time.time() - t0, 3)
     return jr
@@ -122,6 +124,11 @@ def _settle(jr, body, res, obs, c, n_samples, sample_keys, counters):
             if k in cnotes and isinstance(cnotes[k], (int, float)):
                 jr.extra[k] = max(jr.extra.get(k, 0), cnotes[k]) if k.startswith("max_") else jr.extra.get(k, 0) + cnotes[k]
 
+    if ckind in ("unsupported", "cut"):
+        jr.unsupported += 1
+        key = "concrete replay: " + (cdetail or "")[:70]
+        jr.unsupported_reasons[key] = jr.unsupported_reasons.get(key, 0) + 1
+        return
     if ckind == "assumption":
         jr.divergences.append({"kind": "model-outside-assumptions", "values": res.values, "detail": cdetail})
         return
@@ -243,3 +250,34 @@ def _show(x, c):
     if hasattr(x, "pieces"):
         return repr(x)
     return x
+
+
+def _second_opinion(samples, jr):
+    """Re-decide a sample of end-of-path queries with the cvc5 binary.  A disagreement is an engine divergence."""
+    import os
+    import subprocess
+    import tempfile
+    out = {"sampled": len(samples), "agree": 0, "disagree": 0, "no_answer": 0}
+    exe = "/usr/bin/cvc5"
+    if not samples or not os.path.exists(exe):
+        return out
+    for expect, smt2 in samples:
+        with tempfile.NamedTemporaryFile("w", suffix=".smt2", delete=False, dir="/tmp") as f:
+            f.write("(set-logic ALL)\n" + smt2)
+            path = f.name
+        try:
+            r = subprocess.run([exe, "--tlimit=20000", path], capture_output=True, text=True, timeout=30)
+            ans = (r.stdout.strip().splitlines() or ["?"])[0]
+        except Exception:
+            ans = "?"
+        finally:
+            os.unlink(path)
+        if ans in ("sat", "unsat"):
+            if ans == expect:
+                out["agree"] += 1
+            else:
+                out["disagree"] += 1
+                jr.divergences.append({"kind": "cvc5-disagrees-with-z3", "z3": expect, "cvc5": ans})
+        else:
+            out["no_answer"] += 1
+    return out
